@@ -21,6 +21,7 @@ type vTransport struct {
 	faultSend                        bool // send may fail
 	lastWhich                        []rpccp.Message_Which
 	returnIDs                        []uint32
+	returnRelParams                  []bool // Return.releaseParamCaps of every message sent (false for others)
 	releaseIDs, releaseCounts        []uint32
 	delivered                        []rpccp.Message_Which // messages whose send succeeded
 	conn                             *Conn
@@ -47,12 +48,15 @@ func (t *vTransport) NewMessage(ctx context.Context) (rpccp.Message, func() erro
 		t.sends++
 		t.lastWhich = append(t.lastWhich, msg.Which())
 		rid := uint32(0)
+		relp := false
 		if msg.Which() == rpccp.Message_Which_return {
 			if r, err := msg.Return(); err == nil {
 				rid = r.AnswerId()
+				relp = r.ReleaseParamCaps()
 			}
 		}
 		t.returnIDs = append(t.returnIDs, rid)
+		t.returnRelParams = append(t.returnRelParams, relp)
 		if msg.Which() == rpccp.Message_Which_release {
 			if r, err := msg.Release(); err == nil {
 				t.releaseIDs = append(t.releaseIDs, r.Id())
